@@ -944,6 +944,14 @@ func rulePairDerived(p *Prog, r *Report) {
 							if bi, ok := c.Call.Value.(*ssa.Builtin); ok && bi.Name() == "len" {
 								if globalOf(c.Call.Args[0]) == ap {
 									okv = true
+									// the load must not be older than a store to attrPrefix that precedes this store in the block
+									if ld, isIn := c.Call.Args[0].(ssa.Instruction); isIn && ld.Block() == b {
+										for j := indexIn(ld) + 1; j < i; j++ {
+											if s0, ok := b.Instrs[j].(*ssa.Store); ok && s0.Addr == ssa.Value(ap) {
+												okv = false
+											}
+										}
+									}
 								}
 								// or len of the value most recently stored to attrPrefix in this block
 								for j := i - 1; j >= 0; j-- {
@@ -1086,7 +1094,29 @@ func isLenOfValueOrReload(v, stored ssa.Value, g *ssa.Global) bool {
 		return false
 	}
 	a := c.Call.Args[0]
-	return a == stored || globalOf(a) == g
+	if a == stored {
+		return true
+	}
+	if globalOf(a) != g {
+		return false
+	}
+	// a re-load of the variable: it must read what was just stored, i.e. no store to the variable lies between the load and its use
+	// in the same block (in `x, n = s, len(x)` the right-hand side is evaluated first: the load sees the old value)
+	ld, ok := a.(ssa.Instruction)
+	if !ok {
+		return false
+	}
+	for _, in := range ld.Block().Instrs[indexIn(ld):] {
+		if st, ok := in.(*ssa.Store); ok && st.Addr == ssa.Value(g) {
+			if indexIn(st) < indexIn(c) || c.Block() != ld.Block() {
+				return false
+			}
+		}
+		if in == ssa.Instruction(c) {
+			break
+		}
+	}
+	return true
 }
 
 // ---- OPT.scope -----------------------------------------------------------------------------------------
